@@ -162,6 +162,13 @@ func (d *dyn) present(t *dynTok, pv int, withActor bool) {
 	d.use(pv)
 	d.n++
 	det := d.ref(t) + " under " + d.views[pv].Name
+	if d.strategy != "forwarded" && d.n%2 == 0 {
+		// op.IssuerFromHost reads the Host only: a client-supplied Forwarded header naming the token's own host must
+		// not move the request's issuer
+		d.forwarded = fmt.Sprintf("host=%q;proto=https", d.views[t.View].Host)
+		det += " with a spoofed Forwarded header naming " + d.views[t.View].Host
+		d.run.Observed("dynamic-issuer:spoofed-forwarded-header:" + d.rn)
+	}
 	if t.Kind == "jwt" || t.Kind == "opaque" {
 		variant := userinfoVariants[d.n%len(userinfoVariants)]
 		resp := d.userinfo(variant, t.Str)
